@@ -273,7 +273,8 @@ def describe(beh, upto):
 _tlc_slots = threading.Semaphore(4)
 
 
-def gen(ctx, cfg, sim=None, depth=None, workers=2, timeout=2400):
+def gen(ctx, cfg, sim=None, depth=None, workers=2, timeout=1500):
+    # a simulation that hits the timeout still delivers the behaviours printed so far
     with _tlc_slots:
         g = ctx.tlc("mc/MC_DeviceMemory.tla", cfg, workers=workers, simulate=sim, depth=(depth + 1 if depth else None), timeout=timeout,
                     deadlock=(sim is None))
@@ -425,7 +426,7 @@ def run(ctx):
         par.go("design", design)
         # 2. behaviours
         if thorough:
-            plan = [("mc/DM_gen2t.cfg", None, None), ("mc/DM_shapes_t.cfg", None, None), ("mc/DM_sim.cfg", 30000, 15)]
+            plan = [("mc/DM_gen2t.cfg", None, None), ("mc/DM_shapes_t.cfg", None, None), ("mc/DM_sim.cfg", 12000, 15)]
         else:
             plan = [("mc/DM_gen2.cfg", None, None), ("mc/DM_shapes.cfg", None, None), ("mc/DM_sim.cfg", 300, 15)]
         for cfg, sim, depth in plan:
